@@ -23,6 +23,9 @@ class LocalCanary(object):
         builtins._verif_marks.append('constructed-local')
 
 
+VALID_BEAN = json.dumps({"jsonrpc": "2.0", "id": 1, "result": {"__jsonclass__": ["decimal.Decimal", ["1"]]}})
+
+
 def make_server(kind, cfg):
     """The object whose _marshaled_dispatch serves the request: every server-side entry point takes a Config."""
     if kind == "dispatcher":
@@ -105,6 +108,8 @@ def run_one(word, dk, rnd, canary=False):
     registered = (not canary) and rnd.random() < 0.3
     spath = rnd.choice(["dispatcher", "dispatcher", "simple", "pooled", "cgi"])
     cpath = rnd.choice(["loads", "proxy"])
+    il_points = 60 if rnd.random() < 0.04 else 0
+    late_off = rnd.random() < 0.5
     rec = {"w": list(word), "dk": dk, "name": name if len(name) < 40 else name[:40], "canary": canary, "registered": registered,
            "spath": spath, "cpath": cpath}
     resp_text = json.dumps({"jsonrpc": "2.0", "id": 1, "result": x})
@@ -114,9 +119,46 @@ def run_one(word, dk, rnd, canary=False):
         tag = "on" if on else "off"
         if registered:
             cfg.classes.add(LocalCanary, name)
-        if cpath == "loads":
+        if cpath == "loads" and on and il_points:
+            # two threads decode the same payload, the second one between two lines of the first (after a valid bean has
+            # been decoded by this process): both behave as a single decoder does
+            from harness import interleave
+            jsonrpc.loads(VALID_BEAN, jsonrpclib.config.Config())
+            fa = lambda: jsonrpc.loads(resp_text, cfg)
+            kpts = interleave.sample_points(interleave.points(fa), il_points, rnd)
+
+            def both():
+                outs = []
+                for k in kpts:
+                    LOG["on"] = False                                          # (another bean has just been decoded:
+                    jsonrpc.loads(VALID_BEAN, jsonrpclib.config.Config())      #  not part of the observation)
+                    LOG["on"] = True
+                    ra, rb, fired = interleave.run(fa, lambda: jsonrpc.loads(resp_text, cfg), k)
+                    outs += [ra, rb]
+                # what a caller of either thread saw: a value one of them built, else the exception that is NOT the
+                # translator's own refusal, else that refusal
+                oks = [r for r in outs if r[0] == "ok"]
+                if oks and len(oks) < len(outs):
+                    return oks[0][1]
+                if oks:
+                    return oks[0][1]
+                odd = [r[1] for r in outs if not r[1].startswith("TranslationError")]
+                name = (odd or [outs[0][1]])[0].split(":")[0]
+                raise {"TranslationError": jsonclass.TranslationError, "ValueError": ValueError, "TypeError": TypeError,
+                       "IndexError": IndexError, "KeyError": KeyError, "AttributeError": AttributeError,
+                       "ImportError": ImportError, "ModuleNotFoundError": ModuleNotFoundError}.get(name, RuntimeError)(name)
+            v, exc, nimp, marks = observe(both)
+            v = v["result"] if exc == "ok" and isinstance(v, dict) and "result" in v else v
+        elif cpath == "loads":
             v, exc, nimp, marks = observe(lambda: jsonrpc.loads(resp_text, cfg))
             v = v["result"] if exc == "ok" and isinstance(v, dict) and "result" in v else v
+        elif cpath == "proxy" and not on and late_off:
+            # the proxy was built (with its own version=) while the translation was still on; it is switched off on the
+            # Config object afterwards: what is received from then on is not interpreted
+            cfg2 = jsonrpclib.config.Config(use_jsonclass=True, version=2.0)
+            p2 = jsonrpc.ServerProxy("http://loop/", transport=Loop(resp_text), config=cfg2, version=1.0)
+            cfg2.use_jsonclass = False
+            v, exc, nimp, marks = observe(lambda: p2.ok())
         else:
             v, exc, nimp, marks = observe(lambda: jsonrpc.ServerProxy("http://loop/", transport=Loop(resp_text), config=cfg).ok())
         rec["client_" + tag] = {"exc": exc, "imports": nimp, "marks": marks, "plain": exc == "ok" and enc(v) == enc(json.loads(resp_text)["result"])}
